@@ -482,6 +482,33 @@ theorem run_hmmer_gene_perm_invariant (cut : Int → Option Int) (minScore maxEv
     runHmmerGene cut minScore maxEvalue r₂ = .ok out :=
   runHmmerGene_perm cut minScore maxEvalue h out h1
 
+/-- `refine_hmmscan_results` on a whole hmmscan output (`gather_by_query` + the gene loop): a gene's
+    entry is the refinement of that gene's own hits — genes do not interact, interleaving is irrelevant,
+    a gene without surviving hits has no entry (`get(gene, [])` is then the empty refinement) … -/
+theorem refine_record_is_per_gene (env : Env) (nb : Bool) (raw : List (Int × Hit)) (g : Int) :
+    lookupGene (refineRecord env nb raw) g = refine env nb ((raw.filter fun r => r.1 == g).map (·.2)) :=
+  refineRecord_lookup env nb raw g
+
+/-- … and does not depend on the order of the hmmscan output -/
+theorem refine_record_perm_invariant (env : Env) (nb : Bool) (r₁ r₂ : List (Int × Hit)) (h : r₁.Perm r₂) (g : Int) :
+    lookupGene (refineRecord env nb r₁) g = lookupGene (refineRecord env nb r₂) g :=
+  refineRecord_perm env nb h g
+
+/-- `run_hmmer(filter_overlapping=False)`: exactly the hits passing the two cuts, in hmmscan order -/
+theorem run_hmmer_unfiltered (cut : Int → Option Int) (minScore maxEvalue : Int) (raw : List RawHmm) :
+    runHmmerGene cut minScore maxEvalue raw false =
+      .ok ((raw.filter fun r => decide (minScore < r.hit.sc) && decide (r.ev < maxEvalue)).map (·.hit)) := by
+  have e : raw.filter (buildKeep minScore maxEvalue) =
+      raw.filter fun r => decide (minScore < r.hit.sc) && decide (r.ev < maxEvalue) := by
+    apply List.filter_congr
+    intro r _
+    simp only [buildKeep]
+    by_cases h1 : r.hit.sc ≤ minScore <;> by_cases h2 : maxEvalue ≤ r.ev <;> simp [h1, h2] <;> omega
+  simp only [runHmmerGene, e]
+  split
+  · rename_i h; rw [h]
+  · rfl
+
 /-- `domain_identification.find_domains` / `find_ab_motifs`: a function of the gene's hit *set* -/
 theorem find_domains_enumeration_invariant (env : Env) (L : Int) (r₁ r₂ : List Hit) (h : ∀ x, x ∈ r₁ ↔ x ∈ r₂) :
     findDomainsGene env L r₁ = findDomainsGene env L r₂ ∧ findAbMotifsGene env r₁ = findAbMotifsGene env r₂ :=
